@@ -226,6 +226,22 @@ pub fn gen_deep(rng: &mut Rng, ix: &str, r: u32) -> Vec<Value> {
     s
 }
 
+/// One representative absorbing several hundred singleton sets (a star), in both argument orders: more unions into
+/// one class than a u8 rank could count if ranks grew with the class instead of with the tree height.
+pub fn gen_star(rng: &mut Rng, ix: &str, n: usize) -> Vec<Value> {
+    let mut s = vec![json!({"op":"reset","ix":ix,"n":n,"ctor":*rng.pick(&CTORS)})];
+    for i in 1..n {
+        // the absorbing representative is the FIRST argument (the tie / greater-rank side of union by rank)
+        let (x, y) = if i < n - 20 || i % 2 == 0 { (0, i) } else { (i, 0) };
+        s.push(json!({"op": if i % 3 == 0 { "try_union" } else { "union" },"x":x,"y":y}));
+    }
+    s.push(json!({"op":"labeling"}));
+    for _ in 0..6 {
+        s.push(json!({"op":"equiv","x":rng.below(n),"y":rng.below(n)}));
+    }
+    s
+}
+
 /// Random histories at every index width, including u8 grown to its 256-element capacity.
 pub fn gen_random(seed: u64, segments: usize, len: usize) -> Vec<Value> {
     let mut rng = Rng::new(seed);
@@ -245,6 +261,7 @@ pub fn gen_random(seed: u64, segments: usize, len: usize) -> Vec<Value> {
         let ix = ["u8", "u16", "u32", "usize"][i % 4];
         out.extend(gen_deep(&mut rng, ix, 2 + (i % 5) as u32));
     }
+    out.extend(gen_star(&mut rng, "u16", 300));
     // u8 at its capacity: start at 250, grow to 256, keep operating
     for _ in 0..(segments / 8).max(1) {
         let mut seg = gen_segment(&mut rng, "u8", 250, 6, false);
